@@ -1,4 +1,5 @@
 import XcmModel.Props.C17
+import XcmModel.Lemmas.Api
 /-!
 # C03 — a failed send leaves no trace; a successful send is delivered exactly once
 (framing layer: tcp, tls.  The blocking wrapper of `xcm.c` is not modelled here; see MANIFEST.)
@@ -117,5 +118,37 @@ theorem C03_ux_size_checks_first (s : Ux.St) (m : Bytes) (k : Ux.KSend)
   · exact ⟨_, by simp [h1], Or.inr rfl⟩
   · have h2 : m.length = 0 := by omega
     exact ⟨_, by simp [h1, h2], Or.inl rfl⟩
+
+
+/-! ## blocking mode: `msg_bsend` + `socket_finish` of xcm.c -/
+
+/-- **a signal never turns an accepted message into a failed send.** For a blocking messaging socket
+and every behaviour of the transport and of poll: if xcm_send fails, then either the transport
+accepted nothing during the call (so nothing can be delivered), or the errno is not EINTR (the
+connection itself failed while flushing). Before fix 7b94f74 (F-03a) `[ok, EAGAIN, EINTR]` gave
+-1/EINTR with the message accepted. -/
+theorem C03_blocking_send_no_false_failure (len : Nat) (script : List Api.Ans) (e : Nat)
+    (h : (Api.send { blocking := true, bytestream := false } len script).1 = .err e) :
+    Api.accSends (Api.send { blocking := true, bytestream := false } len script).2 = 0 ∨ e ≠ Api.EINTR := by
+  have hs : Api.send { blocking := true, bytestream := false } len script
+      = Api.finishAfter (Api.msgBsend (Api.fuelOf script) len script []) := by simp [Api.send]
+  rw [hs] at h ⊢
+  have hb := Api.msgBsend_acc (Api.fuelOf script) len script []
+  have hf := Api.finishAfter_spec (Api.msgBsend (Api.fuelOf script) len script [])
+  rcases hf.2.2.2 e h with h1 | ⟨_, h2⟩
+  · left; rw [hf.2.1]; simpa [Api.accSends] using hb.2 e h1
+  · right; exact h2
+
+/-- and a successful blocking send was accepted by the transport exactly once -/
+theorem C03_blocking_send_accepted_once (len : Nat) (script : List Api.Ans) (n : Nat)
+    (h : (Api.send { blocking := true, bytestream := false } len script).1 = .rc n) :
+    Api.accSends (Api.send { blocking := true, bytestream := false } len script).2 = 1 := by
+  have hs : Api.send { blocking := true, bytestream := false } len script
+      = Api.finishAfter (Api.msgBsend (Api.fuelOf script) len script []) := by simp [Api.send]
+  rw [hs] at h ⊢
+  have hb := Api.msgBsend_acc (Api.fuelOf script) len script []
+  have hf := Api.finishAfter_spec (Api.msgBsend (Api.fuelOf script) len script [])
+  rw [hf.2.1]
+  simpa [Api.accSends] using hb.1 n (hf.2.2.1 n h)
 
 end XcmModel.C03
